@@ -52,12 +52,14 @@ class Sq:
         s.stmts = {}; s.log = []; s.txn = 0; s.w_auto = 0; s.w_txn = 0; s.failed = None; s.opens = []; s.changes = None; s.rowid = None
         s.tables = {}; s.nextid = {}; s.txn_snapshot = None; s.began = 0; s.committed = 0; s.rolled = 0
         s.rel = None; s.rel_snapshot = None        # relational back end (models_rel.RelDB)
+        s.sp_stack = []; s.sp_started = False      # SAVEPOINT stack: (name, key/value snapshot, relational snapshot); transaction opened by a SAVEPOINT
     def clone(s):
         n = Sq.__new__(Sq); n.__dict__.update(s.__dict__)
         n.stmts = {k: v.clone() for k, v in s.stmts.items()}; n.log = list(s.log); n.opens = list(s.opens)
         n.tables = {t: {k: dict(r) for k, r in rows.items()} for t, rows in s.tables.items()}; n.nextid = dict(s.nextid)
         n.txn_snapshot = s.txn_snapshot
         n.rel = s.rel.clone() if s.rel is not None else None; n.rel_snapshot = s.rel_snapshot
+        n.sp_stack = list(s.sp_stack)
         return n
 
 def install(eng, cfg=None):
@@ -95,6 +97,7 @@ def install(eng, cfg=None):
         # closing a connection rolls an open transaction back (as SQLite does); the committed store stays (one store per run: "the file")
         q = sq(st); q.log.append(('close',))
         if q.txn:
+            q.sp_stack = []; q.sp_started = False
             q.txn = 0; q.w_txn = 0; q.rolled += 1; q.log.append(('step', 'txn', 'ROLLBACK (implicit: connection closed inside a transaction)', {}, 'ok'))
             if q.txn_snapshot is not None: q.tables = q.txn_snapshot; q.txn_snapshot = None
             if q.rel is not None and q.rel_snapshot is not None: q.rel.restore(q.rel_snapshot); q.rel_snapshot = None
@@ -178,7 +181,37 @@ def install(eng, cfg=None):
                 s_.pos += 1; s_.cur = {}; return SQLITE_ROW
             return SQLITE_DONE
         if kind == 'txn':
-            w = s_.sql.strip().upper().split()[0]
+            toks = s_.sql.strip().rstrip(';').split()
+            w = toks[0].upper()
+            up = [t.upper() for t in toks]
+            copy_kv = lambda: {t: {k: dict(r) for k, r in rows.items()} for t, rows in q.tables.items()}
+            if w == 'SAVEPOINT' or w == 'RELEASE' or (w == 'ROLLBACK' and 'TO' in up):
+                # SQLite savepoints: SAVEPOINT outside a transaction opens one; ROLLBACK TO reverts to the savepoint and KEEPS it (the transaction stays
+                # open); RELEASE of the outermost savepoint of a savepoint-opened transaction commits
+                name = toks[-1].lower()
+                if w == 'SAVEPOINT':
+                    if not q.txn:
+                        q.txn = 1; q.w_txn = 0; q.began += 1; q.sp_started = True
+                        if exe: q.txn_snapshot = copy_kv()
+                        if q.rel is not None: q.rel_snapshot = q.rel.snapshot()
+                    q.sp_stack.append((name, copy_kv() if exe else None, q.rel.snapshot() if q.rel is not None else None))
+                else:
+                    idx = [i for i, e in enumerate(q.sp_stack) if e[0] == name]
+                    if not idx:
+                        q.log.append(('step', 'txn', s_.sql, {}, 'error: no such savepoint')); return SQLITE_ERROR
+                    i = idx[-1]
+                    if w == 'ROLLBACK':
+                        _, kvs, rels = q.sp_stack[i]
+                        if kvs is not None: q.tables = {t: {k: dict(r) for k, r in rows.items()} for t, rows in kvs.items()}
+                        if rels is not None and q.rel is not None: q.rel.restore(rels)
+                        del q.sp_stack[i + 1:]
+                    else:
+                        del q.sp_stack[i:]
+                        if not q.sp_stack and q.sp_started:
+                            q.txn = 0; q.w_auto += q.w_txn; q.w_txn = 0; q.committed += 1; q.txn_snapshot = None; q.rel_snapshot = None; q.sp_started = False
+                q.log.append(('step', 'txn', s_.sql, {}, 'ok'))
+                return SQLITE_DONE
+            if w in ('COMMIT', 'END', 'ROLLBACK') and q.txn: q.sp_stack = []; q.sp_started = False
             if w == 'BEGIN':
                 if q.txn:
                     q.log.append(('step', 'txn', s_.sql, {}, 'error: nested')); return SQLITE_ERROR
